@@ -217,6 +217,45 @@ func emitImp(cw *caseWriter, f, ty string, v interface{}) { emitImpFor(cw, "C10"
 
 func emitImpFor(cw *caseWriter, prop, f, ty string, v interface{}) { emitImpAfter(cw, prop, f, ty, nil, v) }
 
+// emitSetCol: row-level STORE into a declared column: a row the template created, then Row.Set (or SetAtIndex) of v
+// under the column's name: the cell keeps its declaration and holds v converted to the raw type — or null when the
+// raw type refuses v. What the cell then holds and what it exports are observed.
+//
+//	setcol \t <prop> \t <format> \t <ty> \t <Dyn v> \t <ext> \t <ok <Dyn raw> => <Dyn exported | ERR> | panic …>
+func emitSetCol(cw *caseWriter, prop, f, ty string, v interface{}, byIndex bool) {
+	t := jsonline.NewTemplate().With("c", formatByName[f], tySample[ty])
+	ext := map[string]string{}
+	extForValue(v, ext)
+	if sv, ok := v.(string); ok {
+		extForText(sv, ext)
+	}
+	impl := "-"
+	pan := guard(func() {
+		row := t.CreateRowEmpty()
+		if byIndex {
+			row.SetAtIndex(0, v)
+		} else {
+			row.Set("c", v)
+		}
+		got, _ := row.Get("c")
+		extForValue(got, ext)
+		impl = "ok " + dynStr(got)
+		cv, _ := row.GetValue("c")
+		if ex, eerr := cv.Export(); eerr == nil {
+			extForValue(ex, ext)
+			impl += " => " + dynStr(ex)
+		} else {
+			impl += " => ERR"
+		}
+	})
+	if pan != "" {
+		impl = "panic " + strings.ReplaceAll(strings.ReplaceAll(pan, "\t", " "), "\n", " ")
+	}
+	cw.count("setcol:" + f + ":" + strings.SplitN(impl, " ", 2)[0])
+	s := dynStr(v)
+	cw.emit("setcol "+prop+" "+f+" "+ty+" "+s, true, "setcol", prop, f, ty, s, extStr(ext), impl)
+}
+
 // emitImpAfterValue: a column declared (f, ty) first imports a jsonline.Value of ANOTHER declaration (f2, ty2) —
 // which, by the API, hands its format, raw value and raw type over to the cell — and then v: the cell behaves as
 // a column declared (f2, ty2) from then on, range checks included. The case is judged as an import of v into a
